@@ -111,6 +111,7 @@ func c15Run(c c15Case) (V, Verdict) {
 		}
 	}
 	var errs VL
+	var stale []string         // reported last: a known cause must not hide another failure of the same case
 	offered := map[int][]cdc{} // every codec of every section handed to the engine, by kind
 	anyErr := false
 	nExact, nPartial := 0, 0
@@ -134,6 +135,66 @@ func c15Run(c c15Case) (V, Verdict) {
 		errs = append(errs, VS(c15ErrClass(err)))
 		if err != nil {
 			anyErr = true
+		}
+		// clause "the remote's payload type is used", read for the description just
+		// applied: a codec it offers (no apt parameter, payload type listed once in
+		// its section) that a registered codec matches exactly is negotiated under
+		// its payload type -- with its own fmtp line and the feedback both sides
+		// share.  Sections reach the codec part of the loop with multi-codec
+		// negotiation (the PeerConnection default).
+		if err == nil && c.Multi {
+			for i := range d {
+				k := ps[i].kind
+				if ps[i].err != nil || (k != 1 && k != 2) {
+					continue
+				}
+				_, l := me.VerifNegotiated(kindType(k))
+				now := cdcsOf(l)
+				for _, rc := range ps[i].codecs {
+					if _, isApt := c15HasApt(rc); isApt {
+						continue
+					}
+					times := 0
+					for _, o := range ps[i].codecs {
+						if o.PT == rc.PT {
+							times++
+						}
+					}
+					var first *cdc
+					for j := range local[k] {
+						if c15Exact(rc, local[k][j]) {
+							first = &local[k][j]
+							break
+						}
+					}
+					if times != 1 || first == nil {
+						continue
+					}
+					var n *cdc
+					for j := range now {
+						if now[j].PT == rc.PT {
+							n = &now[j]
+							break
+						}
+					}
+					if n == nil {
+						fail("exactly-matched-offered-codec-not-negotiated", fmt.Sprintf("desc %d section %d: %v matches registered %v exactly; negotiated: %v", di, i, rc, *first, now))
+						continue
+					}
+					var want [][2]string
+					for _, f := range first.FB {
+						for _, g := range rc.FB {
+							if f == g {
+								want = append(want, f)
+								break
+							}
+						}
+					}
+					if !n.sameButFB(rc) || fmt.Sprint(want) != fmt.Sprint(n.FB) {
+						stale = append(stale, fmt.Sprintf("desc %d section %d offers %v (matches registered %v exactly, shared feedback %v), applied without error; payload type %d stays negotiated as %v", di, i, rc, *first, want, rc.PT, *n))
+					}
+				}
+			}
 		}
 		// clause "exact matches are preferred over partial ones", per section whose
 		// codecs were all added in this call: evaluated on what this description added
@@ -347,6 +408,9 @@ func c15Run(c c15Case) (V, Verdict) {
 	case n > 0:
 		cls = "apt-only"
 	}
+	if verdict.OK && len(stale) > 0 {
+		verdict = Fail("renegotiated-pt-keeps-earlier-parameters", stale[0])
+	}
 	if verdict.OK {
 		verdict.Class = fmt.Sprintf("%s/descs%d", cls, len(c.Descs))
 		verdict.NonTrivial = n > 0
@@ -526,6 +590,17 @@ func c15Corpus() []c15Case {
 				{Kind: "video", Codecs: []rcodec{{Name: "VP8", Clock: 90000, PT: 96}}},
 				{Kind: "video", Codecs: []rcodec{{Name: "H264", Clock: 90000, Line: "packetization-mode=1;profile-level-id=42001f", PT: 96}}},
 			}}},
+		// renegotiation under the same payload type with another fmtp line and less
+		// feedback: accepted without error, the first description's entry stays
+		// (finding renegotiated-pt-keeps-earlier-parameters; c15_current_binding_refuted)
+		{Video: []cdc{
+			{Mime: "video/H264", Clock: 90000, Line: "packetization-mode=1;profile-level-id=42e01f", FB: [][2]string{{"nack", ""}, {"nack", "pli"}}, PT: 102},
+			{Mime: "video/H264", Clock: 90000, Line: "packetization-mode=0;profile-level-id=42e01f", FB: [][2]string{{"nack", ""}, {"nack", "pli"}}, PT: 104}},
+			Multi: true, Probes: []uint8{102, 104},
+			Descs: [][]rsec{
+				{{Kind: "video", Codecs: []rcodec{{Name: "H264", Clock: 90000, Line: "packetization-mode=1;profile-level-id=42e01f", FB: [][2]string{{"nack", ""}, {"nack", "pli"}}, PT: 102}}}},
+				{{Kind: "video", Codecs: []rcodec{{Name: "H264", Clock: 90000, Line: "packetization-mode=0;profile-level-id=42e01f", FB: [][2]string{{"nack", ""}}, PT: 102}}}},
+			}},
 		// malformed apt
 		{Video: []cdc{vp8, rtx}, Multi: true, Probes: []uint8{96, 97},
 			Descs: [][]rsec{{{Kind: "video", Codecs: []rcodec{{Name: "VP8", Clock: 90000, PT: 96}, {Name: "rtx", Clock: 90000, Line: "apt=x", PT: 97}}}}}},
